@@ -133,6 +133,17 @@ pub fn run(cfg: &Cfg, out: &mut Out) -> String {
             out.count(ctor);
             out.qa(&format!("ctor {ctor} {bits:08x}"), &describe(c));
             out.nontrivial();
+            // implementation-side oracle: the conclusion of the round-trip theorems, evaluated on the real code
+            let expect_tag = match ctor {
+                "length" => CompactLength::LENGTH_TAG,
+                "percent" => CompactLength::PERCENT_TAG,
+                "fr" => CompactLength::FR_TAG,
+                "fit_content_px" => CompactLength::FIT_CONTENT_PX_TAG,
+                _ => CompactLength::FIT_CONTENT_PERCENT_TAG,
+            };
+            if c.tag() != expect_tag || c.value().to_bits() != bits || c.is_calc() {
+                out.impl_violation(format!("sig:c18-roundtrip {ctor}({bits:08x}) reads back tag {} value {:08x} is_calc {}", c.tag(), c.value().to_bits(), c.is_calc()));
+            }
             // resolution through the typed wrappers
             let ctx_bits = interesting_bits(&mut r);
             let ctx = if r.chance(1, 4) { None } else { Some(f32::from_bits(ctx_bits)) };
